@@ -420,6 +420,18 @@ int main(void){
     printf(" %%d", (st && config_setting_set_format(st, (unsigned short)f)) ? 1 : 0);
     config_destroy(&cf);
   }
+  /* the whole life of a format: default format d0 in force when config_setting_set_format(setting of type t, f) is called,
+     default format d1 in force afterwards: 100*success + 10*(the format stored in the setting) + the effective format */
+  printf("\nN FORMAT_EFFECT");
+  for(t = 0; t <= 8; ++t) for(a = 0; a <= 1; ++a) for(f = 0; f <= 3; ++f) { int d1; for(d1 = 0; d1 <= 1; ++d1){
+    config_t cf; config_setting_t *st; int ok = 0; config_init(&cf);
+    st = config_setting_add(config_root_setting(&cf), "x", t);
+    config_set_default_format(&cf, (short)a);
+    if(st) ok = config_setting_set_format(st, (unsigned short)f);
+    config_set_default_format(&cf, (short)d1);
+    printf(" %%d", st ? (ok ? 100 : 0) + 10 * (int)st->format + (int)config_setting_get_format(st) : 999);
+    config_destroy(&cf);
+  } }
   /* typed lookups: stored type t = 0,2..6 (value 1 / 1.0 / "x" / true), requested kind k = int,int64,float,bool,string, auto-convert a */
   printf("\nB GET_OK");
   for(t = 0; t <= 8; ++t) for(f = 0; f < 5; ++f) for(a = 0; a <= 1; ++a){
@@ -561,6 +573,8 @@ def function_tables():
         L.append('def %s : List Bool := [%s]' % (lname, ', '.join('true' if b else 'false' for b in tabs.get(key, []))))
     L.append('/-- the byte the scanner stores for `\\xHH` / `\\XHH` (+1000 when the rest of the literal follows it): index (x*22 + i)*22 + j over the digit alphabet 0-9a-fA-F; byte 0 ends the C string -/')
     L.append('def hexEscapeTable : List Int := [%s]' % ', '.join(map(str, tabs.get('HEX_ESCAPE', []))))
+    L.append('/-- `config_setting_set_format(setting of type t, f)` called while the default format is d0, observed while it is d1: 100·success + 10·(format stored in the setting) + effective format; index ((t*2 + d0)*4 + f)*2 + d1 -/')
+    L.append('def formatEffectTable : List Nat := [%s]' % ', '.join(map(str, tabs.get('FORMAT_EFFECT', []))))
     L.append('/-- `config_get_options` after `config_set_option(1 <<< bit, flag)` on a fresh configuration: index bit*2 + flag -/')
     L.append('def optionSetTable : List Nat := [%s]' % ', '.join(map(str, tabs.get('OPTION_SET', []))))
     L.append('/-- `config_setting_set_<k>(setting of type t, 1 / 1.0 / "x")`: 100·success + type afterwards, index (t*5 + k)*2 + auto -/')
